@@ -30,6 +30,41 @@ fn main() {
     let build = args.get(1).cloned().unwrap_or_default();
     let cases: usize = args.get(2).and_then(|s| s.parse().ok()).unwrap_or(200);
     let with_bytes: usize = args.get(3).and_then(|s| s.parse().ok()).unwrap_or(40);
+    // long streams of equal-sized tiny frames with the *default* configuration (whose `multithread`
+    // default depends on the "par" feature): the frames with the last 1-byte / first 2-byte / last
+    // 2-byte / first 3-byte frame numbers are the (co-)extreme ones
+    for (j, nframes) in [127usize, 128, 129, 130, 2048, 2049].iter().enumerate() {
+        for (bps, ch, kind) in [(8usize, 1usize, 0u8), (16, 2, 1)] {
+            let bs = 32usize;
+            let n = nframes * bs;
+            let hi = (1i64 << (bps - 1)) - 1;
+            let x: Vec<i32> = (0..n * ch)
+                .map(|t| if kind == 0 { 5 } else { (((t / ch) % bs) as i64 * 37 % hi) as i32 })
+                .collect();
+            let mut cfg = config::Encoder::default();
+            cfg.block_size = bs;
+            let src = MemSource::from_samples(&x, ch, bps, 44100);
+            let out = match cfg.into_verified() {
+                Ok(v) => match flacenc::encode_with_fixed_block_size(&v, src, bs) {
+                    Ok(s) => {
+                        let mut sink = ByteSink::new();
+                        match s.write(&mut sink) {
+                            Ok(()) => sink.as_slice().to_vec(),
+                            Err(_) => b"write error".to_vec(),
+                        }
+                    }
+                    Err(e) => format!("encode error: {e}").into_bytes(),
+                },
+                Err((_, e)) => format!("config error: {e}").into_bytes(),
+            };
+            println!(
+                "{{\"ev\":\"out\",\"build\":\"{build}\",\"case\":{},\"digest\":\"{}\",\"len\":{},\"mt\":false,\"bytes\":[]}}",
+                100000 + j * 10 + kind as usize,
+                fnv(&out),
+                out.len()
+            );
+        }
+    }
     for i in 0..cases {
         let mut r = Lcg(0x1234_5678 + i as u64 * 7919);
         let ch = [1usize, 2, 2, 3, 6][i % 5];
